@@ -94,3 +94,9 @@ reg("C20",
     "Cases whose in-process expansion contains a compile_error! are set aside (that is derive_ex's own message); every other case is compiled by real rustc with warnings on: any error attributed to the case, and any warning whose span lies in derive_ex's output, is a violation. User-written pieces are well-typed by construction. Exhaustive within the bound.",
     "Bound: quick ~10.5k cases (18 lists x 10 shapes x 15 generics options with the field-type variation on <T>; 6 comparison lists x 5 shapes x 8 attribute flavours x positions; 18 fixed Debug/Default flavours; C01/C06 quick generators); thorough adds all field-type variations and both entry points everywhere. Lints: rustc default warn level only (no clippy).",
     "DESIGN.md 5/C20")
+
+reg("C13",
+    "bounded exhaustive enumeration of 14 base programs (every derivable trait, with and without helper attributes, structs / enums / user impl, type / const / lifetime parameters) x renamings of one (thorough: two) role(s) to every name of a hostile dictionary x scopes {plain, prelude- and core/std/alloc-shadowing module, #![no_std]}, compiled with the real proc-macro and executed; metamorphic oracle against the neutral program",
+    "Every variant is compiled by real rustc against the repository's proc-macro (no_std variants metadata-only) and executed; it must compile and print exactly the behaviour trace (comparison tables, recorded hash feeds, clone / default / operator results, Debug-equals-std-twin flags) of the neutral program. Exhaustive within the dictionary and bound.",
+    "Bound: dictionary = 22 names the expansion introduces (incl. pre-fix ones), 3 raw keywords, 14 prelude names, 4 lifetimes; roles type / field / variant / type parameter / const parameter / lifetime; quick: full dictionary on the three all-traits programs in plain + shadowed scope, generator names on the rest (1919 cases); thorough: everything incl. two simultaneous renamings on the all-traits programs (74777 cases). Names starting with __ are excluded (reserved).",
+    "DESIGN.md 5/C13")
